@@ -10,7 +10,8 @@ encoding: `a ≤ 64·len`; install/download/size: `a ≤ 64·len + 64·65536`, t
 the u16-counted tag table), with the element sizes of the pre-sized vectors as parameters
 (`≤ 64` bytes, printed by the harness from `size_of`), and allocations made under the documented
 decompression cap listed separately (`capped`, each ≤ MAX_DECOMPRESSION_SIZE).  The archive-index
-footer is the one front end that still panics (recorded finding): counter-witness + `_partial`.
+footer was the one front end that still panicked; since fix 6b0ee35 `aidx_footer_no_panic` holds
+for all inputs (the former counter-witness is proved rejected).
 -/
 import Cascette.Proofs.ParseGuards
 import Cascette.Proofs.Integrity
@@ -137,34 +138,35 @@ theorem idx_no_panic_alloc_bounded_loop_advances (b : Bytes) :
     ((Local.idxFront b).1.verdict = .pass → 9 ≤ (Local.idxFront b).2) :=
   Proofs.ParseGuards.Local.idx_spec b
 
-/-! ### CDN archive index footer (finding: two slicing panics) -/
+/-! ### CDN archive index footer (two slicing panics, repaired by fix 6b0ee35) -/
 
 open Cascette.Model.Integrity in
-/-- FULL STATEMENT (false of the tree, kept for reference):
-`∀ H cs d, Aidx.footerCheck H cs d ≠ .panic`.
-Counter-witness, for every hash function and both entry points: 36 bytes of value 16. The byte
-at End(-13) and footer byte 15 both say "16-byte footer hash", `is_valid` slices
-`expected[..16]` of an 8-byte vector. -/
-theorem aidx_footer_panics (H : Hash) (cs : Bool) :
-    Aidx.footerCheck H cs (List.replicate 36 16) = .panic := by
+/-- FULL STATEMENT (holds since fix 6b0ee35): the footer stage of `ArchiveIndex::parse`
+(`cs = true`; also reached through `ArchiveGroup::parse`) and of `ChunkedArchiveIndex::open`
+(`cs = false`) never reaches `expected[..actual_len]` with `actual_len > 8` nor
+`footer.footer_hash[..8]` on a shorter hash — for every hash function and every input. The model
+keeps both slicing expressions as `.panic` branches; the theorem says they are unreachable. -/
+theorem aidx_footer_no_panic (H : Hash) (cs : Bool) (d : Bytes) : Aidx.footerCheck H cs d ≠ .panic :=
+  Proofs.Integrity.Aidx.footerCheck_no_panic H cs d
+
+open Cascette.Model.Integrity in
+/-- the former counter-witness (36 bytes of value 16: both size bytes said "16-byte footer hash" and
+`is_valid` sliced `expected[..16]` of an 8-byte vector) is now an `InvalidFormat` error. -/
+theorem aidx_footer_former_witness_rejected (H : Hash) (cs : Bool) :
+    Aidx.footerCheck H cs (List.replicate 36 16) = .format := by
   unfold Aidx.footerCheck
   have h1 : (List.replicate 36 (16 : Byte)).length = 36 := by simp
   simp only [h1]
   have h2 : byteAt (List.replicate 36 (16 : Byte)) (36 - 13) = 16 := by decide
-  have h3 : byteAt (slice (List.replicate 36 (16 : Byte)) (36 - (20 + 16)) 20) 15 = 16 := by decide
-  simp only [h2, h3]
+  simp only [h2]
   simp
 
 open Cascette.Model.Integrity in
-/-- PARTIAL: when the byte at End(-13) is 8 — the only footer-hash size `validate_format`
-accepts — the footer acceptor does not panic, for every hash function and every input. -/
+/-- (kept; now a corollary of `aidx_footer_no_panic`) when the byte at End(-13) is 8 the footer
+acceptor does not panic. -/
 theorem aidx_footer_no_panic_partial (H : Hash) (cs : Bool) (d : Bytes)
-    (h8 : byteAt d (d.length - 13) = 8) : Aidx.footerCheck H cs d ≠ .panic := by
-  unfold Aidx.footerCheck
-  simp only [h8]
-  intro h
-  repeat' split at h
-  all_goals first | omega | cases h
+    (_h8 : byteAt d (d.length - 13) = 8) : Aidx.footerCheck H cs d ≠ .panic :=
+  aidx_footer_no_panic H cs d
 
 /-- the partial theorem's hypothesis is met by a non-trivial input (a 28-byte footer whose
 hash-size byte is 8). -/
